@@ -64,7 +64,8 @@ def run(chk):
                        'extension-definition escape; constructor receives this call\'s allow_custom).  B: every valid object (minimal and all-optional form) x '
                        'injection site (top level, each embedded object, each extension, hash dictionaries in both entry orders, each reference, bundle member, '
                        'observed-data member) x custom kind: strict constructors/parse refuse; with customisation allowed has_custom <=> a strict re-parse of the '
-                       'serialization is refused.  The accumulation loop of _STIXBase.__init__ is bounded only.')
+                       'serialization is refused; unregistered top-level types (with every kind of extension entry) and custom content in 6 input forms through parse, '
+                       'Environment.parse, Bundle, MemoryStore / MemorySink / FileSystemStore created with allow_custom=False.  The accumulation loop of _STIXBase.__init__ is bounded only.')
     chk.assume('the documented custom_properties keyword is a known finding (admits custom properties in strict mode)')
     for c in (K.list_clean_contract(), K.hashes_clean_contract(), K.reference_clean_contract(), KP.dict_to_stix2_contract()):
         chk.prove(c); chk.canary(c)
@@ -104,6 +105,76 @@ def run(chk):
     if chk.tier == 'quick' and len(cc) > 9000: chk.rng.shuffle(cc); cc = cc[:9000]
     chk.bounded('custom content injection: strict refusal and flag <=> strict re-parse refused', cc, check, classify=lambda c: (c[1].split(':')[2], c[3].split(' ')[0], c[4]),
                 bound='every parseable type (minimal + all-optional) x injection sites x custom kinds x both switch settings' + (' (9000-case subset)' if chk.tier == 'quick' else ''), stop_after=100)
+
+    # ---- unregistered top-level types and the strict stores
+    import tempfile, shutil
+    from stix2 import MemoryStore, MemorySink, FileSystemStore, Environment
+    U2 = G.UUID2
+    def unreg(ext=None, ver='2.1'):
+        d = {'type': 'x-vf-never-registered', 'id': 'x-vf-never-registered--' + G.UUID, 'created': G.T1, 'modified': G.T1, 'x_v': 1}
+        if ver == '2.1': d['spec_version'] = '2.1'
+        if ext is not None: d['extensions'] = ext
+        return d
+    EXT = 'extension-definition--' + U2
+    top_unregistered = [('no extensions', unreg(), False), ('no extensions (2.0)', unreg(ver='2.0'), False), ('x- extension', unreg({'x-some-ext': {'a': 1}}), False),
+                        ('property-extension definition', unreg({EXT: {'extension_type': 'property-extension', 'a': 1}}), False),
+                        ('toplevel-property-extension definition', unreg({EXT: {'extension_type': 'toplevel-property-extension'}, }), False),
+                        ('new-sdo definition', unreg({EXT: {'extension_type': 'new-sdo'}}), True), ('new-sco definition', unreg({EXT: {'extension_type': 'new-sco'}}), True),
+                        ('new-sro definition', unreg({EXT: {'extension_type': 'new-sro'}}), True),
+                        ('extension key that is not an extension-definition id', unreg({'x-ext-new-sdo': {'extension_type': 'new-sdo'}}), False),
+                        ('extension value that is not a dictionary', unreg({EXT: 'new-sdo'}), False)]
+    ident = {'type': 'identity', 'spec_version': '2.1', 'id': 'identity--' + G.UUID, 'created': G.T1, 'modified': G.T1, 'name': 'n'}
+    fil = {'type': 'file', 'spec_version': '2.1', 'id': 'file--' + G.UUID, 'name': 'f', 'hashes': {'MD5': 'a' * 32}}
+    store_inputs = [(f'unregistered type, {n}', d, ok) for n, d, ok in top_unregistered] + [
+        ('custom property', dict(ident, x_custom=1), False), ('custom property (no prefix)', dict(ident, foo_custom=1), False),
+        ('non-specification hash algorithm', dict(fil, hashes={'MD5': 'a' * 32, 'x-my-hash': 'abc'}), False), ('unregistered extension', dict(fil, extensions={'x-unregistered-ext': {'a': 1}}), False),
+        ('reference to a custom type', dict(ident, created_by_ref='x-custom-thing--' + U2), False), ('embedded custom property', dict(ident, external_references=[{'source_name': 's', 'x_inner': 1}]), False)]
+    tmpd = tempfile.mkdtemp(prefix='vf-c04-')
+    FORMS = {'dict': lambda d: d, 'list': lambda d: [d], 'bundle dict': lambda d: {'type': 'bundle', 'id': 'bundle--' + G.UUID, 'objects': [d]},
+             'list of bundle dicts': lambda d: [{'type': 'bundle', 'id': 'bundle--' + G.UUID, 'objects': [ident, d]}], 'JSON text': lambda d: json.dumps(d),
+             'bundle JSON text': lambda d: json.dumps({'type': 'bundle', 'id': 'bundle--' + G.UUID, 'objects': [d]})}
+
+    def store_cases():
+        for name, d, sanctioned in store_inputs:
+            for form in FORMS:
+                for route in ('parse', 'Environment.parse', 'MemoryStore.add', 'MemoryStore(stix_data)', 'MemorySink.add', 'FileSystemStore.add', 'Bundle(objects=)'):
+                    if route in ('parse', 'Environment.parse', 'Bundle(objects=)') and form in ('list', 'list of bundle dicts'): continue
+                    if route == 'Bundle(objects=)' and form != 'dict': continue
+                    yield (name, form, route, d, sanctioned)
+
+    def held(st, d):
+        try: return st.get(d['id']) is not None
+        except Exception: return False
+
+    def check_store(case):
+        name, form, route, d, sanctioned = case
+        x = FORMS[form](copy.deepcopy(d)); got = None
+        try:
+            if route == 'parse': got = stix2.parse(x, allow_custom=False)
+            elif route == 'Environment.parse': got = Environment(store=MemoryStore()).parse(x, allow_custom=False)
+            elif route == 'Bundle(objects=)': got = stix2.v21.Bundle(objects=[x], allow_custom=False)
+            elif route == 'MemoryStore.add':
+                st = MemoryStore(allow_custom=False); st.add(x); got = held(st, d)
+            elif route == 'MemoryStore(stix_data)':
+                st = MemoryStore(stix_data=x, allow_custom=False); got = held(st, d)
+            elif route == 'MemorySink.add':
+                sk = MemorySink(allow_custom=False); sk.add(x); got = d['id'] in sk._data
+            elif route == 'FileSystemStore.add':
+                root = tempfile.mkdtemp(dir=tmpd); st = FileSystemStore(root, allow_custom=False); st.add(x)
+                got = any(fn.endswith('.json') for _, _, fns in __import__('os').walk(root) for fn in fns)
+        except Exception as ex:
+            if not O.family(ex) and type(ex).__name__ not in ('DataSourceError',): return (f'escape#{type(ex).__name__}', f'{name} as {form} through {route}: {type(ex).__name__}: {ex}', {'input': d})
+            return None
+        if got is False or sanctioned: return None
+        if 'bundle' in form and route in ('parse', 'Environment.parse') and not isinstance(got, dict):
+            inner = got.get('objects', [None])[-1] if hasattr(got, 'get') else None
+            if inner is None: return None
+        return (f'strict#{route}:{name}', f'{name} given as {form} through {route} with customisation disallowed was admitted ({str(got)[:120]})', {'input': d, 'form': form, 'route': route})
+    try:
+        chk.bounded('strict entry points: unregistered top-level types and custom content through parse / Environment / memory and filesystem stores', list(store_cases()), check_store,
+                    classify=lambda c: c[:3], bound=f'{len(store_inputs)} inputs (10 shapes of unregistered type incl. every extension_type, 6 kinds of custom content) x 6 input forms x 7 strict entry points')
+    finally:
+        shutil.rmtree(tmpd, ignore_errors=True)
 
     # objects without any custom content: flag false and strict re-parse accepted
     def clean_cases():
